@@ -13,6 +13,7 @@ DEFAULT = dict(
     signatures=True, supported_clefs_only=False, others=True, force_clef=False, max_body=10, max_sub=3, max_width=7,
     barlines=True, final_barline=True, numbered_bars=False, null_weight=2, interp_rows=True, rule_iv=True,
     sig_in_split=False, adjacent_joins=True, ext_sigs=False, force_kern=True, hidden_bars=False,
+    chord_optional_dur=False,
 )
 
 PROFILES = {
@@ -67,7 +68,7 @@ def _data_cell(draw, P, typ):
     if typ == KERN:
         return draw(G.kern_data_cells(chords=P['chords'], acc=P['acc'], sigs=P['sigs'], grace=P['grace'],
                                       rest_in_chord=P['rest_in_chord'], null_weight=P['null_weight'],
-                                      rule_iv=P['rule_iv'], ext=P['ext_sigs']))
+                                      rule_iv=P['rule_iv'], ext=P['ext_sigs'], chord_optional_dur=P['chord_optional_dur']))
     return draw(G.other_data_cells(typ, sep_chars=P['sep_chars']))
 
 
@@ -247,6 +248,12 @@ def _event(draw, P, paths, rows, state):
                 if any(c['k'] == 'interp' for c in cells):
                     rows.append(_row(cells))
                     rows.append(_row([_data_cell(draw, P, paths.typ(k)) for k in range(len(paths.sp))]))
+                    if draw(st.booleans()):
+                        # join again right away: the notes that follow are governed by the FIRST sub-spine's new clef
+                        r2 = _join_row(draw, P, paths)
+                        if r2:
+                            rows.append(r2)
+                            rows.append(_row([_data_cell(draw, P, paths.typ(k)) for k in range(len(paths.sp))]))
     elif x in (17, 18) and P['splits']:
         r = _join_row(draw, P, paths)
         if r:
@@ -386,6 +393,34 @@ def measure_documents(draw, MP):
         rows.append(_row([dict(b) for _ in range(width())]))
         for _ in range(draw(st.integers(0, 3))):
             x = draw(st.integers(0, 11))
+            kern_cols = [k for k in range(width()) if paths.typ(k) == KERN]
+            if x == 11 and MP['splits'] and not open_split and len(paths.sp) == len(types) and len(kern_cols) >= 3:
+                # two spines that are not neighbours are split on one line and re-joined on one line (two join groups)
+                a_, b_ = kern_cols[0], kern_cols[-1]
+                cells, new = [], []
+                for k, s_ in enumerate(paths.sp):
+                    if k in (a_, b_):
+                        cells.append(G.op_cell('*^'))
+                        new += [s_, s_]
+                    else:
+                        cells.append(G.nullinterp_cell())
+                        new.append(s_)
+                paths.sp = new
+                rows.append(_row(cells))
+                rows.append(data_row())
+                cells, new, seen = [], [], set()
+                for k, s_ in enumerate(paths.sp):
+                    if paths.sp.count(s_) > 1:
+                        cells.append(G.op_cell('*v'))
+                        if s_ not in seen:
+                            new.append(s_)
+                            seen.add(s_)
+                    else:
+                        cells.append(G.nullinterp_cell())
+                        new.append(s_)
+                paths.sp = new
+                rows.append(_row(cells))
+                continue
             if x < 2 and MP['splits'] and not open_split:
                 SP = profile('full', max_sub=3, max_width=7, adjacent_joins=False)
                 r = _split_row(draw, SP, paths)
